@@ -90,10 +90,21 @@ package sourcerunner
 // Everything the operators receive goes through the output stream, in the order it was queued
 // by this loop: the loop itself never talks to the operators (a barrier or watermark sent
 // directly would overtake the placeholders of records that are still being keyed).
+// (Every event queued on the output stream is a NEW object: watermark placeholders are stamped in
+// place when they are sent, so a shared one would rewrite watermarks already forwarded - C11.)
 //@ func SourceRunner.processEvents
-//@   property C04 C16
+//@   property C04 C16 C11
 //@   nosafety
+//@   atcall send:outputStream: fresh(arg0)
 //@   atcall createCheckpoint: arg0 == barrier.CheckpointId
 //@   atcall sendOperatorEvent: false
 //@   atcall broadcastEvent: false
 //@   atcall routeEvent: false
+
+// The per-operator sender hands a full batch to its worker SYNCHRONOUSLY (unbuffered channel): a
+// batch still waiting in a buffer could be overtaken by the time-out flush of the following batch
+// and same-key records would reach the operator out of order (C04).
+//@ func newBatchingOperator
+//@   property C04
+//@   nosafety
+//@   atcall makechan: arg0 == 0
